@@ -150,6 +150,152 @@ def contexts(tier):
     return out
 
 
+# ------------------------------------------------------------------ free text with balanced brackets inside `[...]`
+
+# Attribute values are free text: the abbreviation grammar lets a quoted value hold anything but its own quote, and an
+# unquoted one anything but white space, quotes and `]`.  The values generated here contain one balanced bracket pair
+# (round or curly; nested once in some) around text that has non-abbreviation characters (space, comma, quote, `=`, ...).
+ATTR_INNER = ['b', 'b c', 'b, c', 'fig. 2, left', 'x=1', "it's", 'a > b', '1 + 2', '', ' ', 'a (b c) d', 'say "hi"',
+              'k: v; w', '?', 'y {q r} z', 'a,b', "'", '<i>', 'p q (r, s) (t u)', '%d, %s']
+ATTR_PRE = ['', 'foo ', 'f', 'a, ']
+ATTR_POST = ['', ' x', '.', ';']
+ATTR_BRACKETS = ['()', '{}']
+ATTR_FORMS = ['%s[t=%s]', '%s[href=# t=%s]', '%s[t=%s u=w]', '%s[t=%s].c', '%s[t=%s c="d e"]', '%s#i[t=%s]']
+ATTR_NAMES = ['a', '', 'x-y', 'li']
+ATTR_TEMPLATES = ['%s', '%s*3', 'ul>%s', '%s>b', '%s+b', '(%s>b)+c', 'x>(%s)*2', '%s{t}', 'p>q^%s', '%s>(b+c)', 'a+%s*',
+                  '(%s)']
+_RANDOM_VALUE_TOKENS = ['a', 'bc', ' ', ' ', ',', ', ', '.', ';', ':', '=', '?', '!', '<', '>', '+', '*', '#', '/', '-', '1', '%']
+
+
+def _quotings(value):
+    out = []
+    if '"' not in value:
+        out.append('"' + value + '"')
+    if "'" not in value:
+        out.append("'" + value + "'")
+    if value and not re.search(r'[\s"\'=]', value) and '{' not in value and value[0] != '(':
+        out.append(value)               # unquoted: `onclick=f(1,2)`
+    return out
+
+
+def attr_text_values():
+    """attribute values (already quoted where needed) with one balanced bracket pair around free text"""
+    out = []
+    for br in ATTR_BRACKETS:
+        for inner in ATTR_INNER:
+            if br == '{}' and ('(' in inner or '{' in inner):
+                continue
+            for pre in ATTR_PRE:
+                for post in ATTR_POST:
+                    for v in _quotings(pre + br[0] + inner + br[1] + post):
+                        if v not in out:
+                            out.append(v)
+    return out
+
+
+def random_attr_value(rng):
+    """seeded random free text with balanced round/curly brackets (nesting <= 2), quoted"""
+    def text(depth):
+        s = ''
+        for _ in range(rng.randint(0, 4)):
+            if depth < 2 and rng.random() < 0.35:
+                br = rng.choice(['()', '()', '{}']) if depth == 0 else '()'
+                s += br[0] + text(depth + 1 if br == '()' else 2) + br[1]
+            else:
+                s += rng.choice(_RANDOM_VALUE_TOKENS)
+        return s
+    while True:
+        v = text(0)
+        if '(' in v or '{' in v:
+            break
+    q = rng.choice('"\'')
+    return q + v + q
+
+
+def _attr_abbreviations(values, per_value):
+    out = []
+    seen = set()
+    wrap = ATTR_TEMPLATES[1:]
+    for i, v in enumerate(values):
+        e = ATTR_FORMS[i % len(ATTR_FORMS)] % (ATTR_NAMES[(i // 2) % len(ATTR_NAMES)], v)
+        for k in range(per_value):
+            a = wrap[(i + (k - 1) * 4) % len(wrap)] % e if k else e
+            if a not in seen:
+                seen.add(a)
+                out.append(a)
+    return out
+
+
+def attr_text_abbreviations(tier):
+    """valid markup abbreviations with an attribute value from attr_text_values(): the element alone and inside
+    1 (quick) / all templates"""
+    values = attr_text_values()
+    if tier == 'quick':
+        return _attr_abbreviations(values, 2)
+    out = []
+    for i, v in enumerate(values):
+        for f in ATTR_FORMS:
+            e = f % (ATTR_NAMES[i % len(ATTR_NAMES)], v)
+            for t in ATTR_TEMPLATES:
+                out.append(t % e)
+    return out
+
+
+def random_attr_abbreviations(rng, n):
+    return _attr_abbreviations([random_attr_value(rng) for _ in range(n)], 2)
+
+
+# ------------------------------------------------------------------ complete HTML tags with free-text quoted values
+
+# A start tag per the HTML syntax: `<name (white space attribute)* [white space] [/]>`; an attribute is a name, a name
+# with an unquoted value (no white space, quotes, `=`, `<`, `>`) or a name with a quoted value holding any text but its
+# own quote character.  The quoted value under study is followed by every kind of tag remainder.
+TAG_NAMES = ['a', 'div', 'x-y', 'ns:el', 'h1', 'input']
+TAG_VALUES = ['x', '', 'a b', "it's", "go('next')", 'say "hi"', "a'b'c", 'a>b', 'a<b', 'a=b', 'f(1)', '[x]', '{y}', 'a/b',
+              'x y="z"', "k='v' w", 'a, b; c', '#', '.', '"', "'", ' "', "' ", "don't >", '<b title="q">', "a='b'", '="', "'="]
+TAG_PRE = ['', 'disabled ', 'href=y ', 'id="k" ', "data-a='1' b ", 'href=/x/y ']
+TAG_POST = ['', ' disabled', ' href=y', ' colspan=2 checked', ' id="k"', " data-a='1'", ' /', '/', ' required /',
+            '  disabled', '\tdisabled', ' ', ' b c', ' href=/x/y', ' src=../i.png', ' b=c/d /']
+TAG_ABBRS = ['foo', 'ul>li.item$*3', 'a[href=#]{x}', '.b+.c', '#id', 'p{t}', '(a+b)*2', 'x-y>b']
+TAG_CSS_ABBRS = ['m10', 'p10-20', 'c#f', 'bd1-s']
+_RANDOM_TAG_CHARS = 'ab c\'"()[]{}<>=/.,#-  '
+
+
+def _tag(name, pre, attr, q, value, post):
+    return '<' + name + ' ' + pre + attr + '=' + q + value + q + post + '>'
+
+
+def html_tags():
+    out = []
+    i = 0
+    for v in TAG_VALUES:
+        for q in '"\'':
+            if q in v:
+                continue
+            for pre in TAG_PRE:
+                for post in TAG_POST:
+                    out.append(_tag(TAG_NAMES[i % len(TAG_NAMES)], pre, ['title', 'data-x', 'on:k'][i % 3], q, v, post))
+                    i += 1
+    return out
+
+
+def random_html_tag(rng):
+    def attr():
+        k = rng.random()
+        name = rng.choice(['a', 'id', 'data-x', 'on:k', 'b2'])
+        if k < 0.2:
+            return name
+        if k < 0.35:
+            return name + '=' + rng.choice(['y', '2', 'x-1', 'k:v', '/x/y', 'a/b', '../i.png'])
+        q = rng.choice('"\'')
+        v = ''.join(rng.choice(_RANDOM_TAG_CHARS) for _ in range(rng.randint(0, 6))).replace(q, '')
+        return name + '=' + q + v + q
+    s = '<' + rng.choice(TAG_NAMES)
+    for _ in range(rng.randint(1, 4)):
+        s += rng.choice([' ', ' ', '  ', '\t']) + attr()
+    return s + rng.choice(['>', '>', ' >', '/>', ' />'])
+
+
 # ------------------------------------------------------------------ the tag-end look-alike family (candidate defect D20)
 
 _IDENT = r'A-Za-z0-9:\-'
@@ -212,6 +358,8 @@ def _selfcheck():
     rng = random.Random(0)
     bad = 0
     allm = markup_abbreviations('thorough')[0] + markup_abbreviations('quick')[0] + [random_markup(rng, 8) for _ in range(20000)]
+    allm += attr_text_abbreviations('thorough') + attr_text_abbreviations('quick') + random_attr_abbreviations(rng, 5000)
+    allm += TAG_ABBRS
     for a in allm:
         try:
             mparse(a)
@@ -219,7 +367,7 @@ def _selfcheck():
             bad += 1
             if bad < 20:
                 print('markup abbreviation rejected by the parser:', repr(a), type(e).__name__, getattr(e, 'message', e))
-    alls = stylesheet_abbreviations() + stylesheet_function_abbreviations()
+    alls = stylesheet_abbreviations() + stylesheet_function_abbreviations() + TAG_CSS_ABBRS
     for a in alls:
         try:
             cparse(a)
